@@ -573,6 +573,50 @@ def r5_placeholders(ctx, sym, mod):
         ctx.analysed_function(mod, mod.func(CLS + name))
 
 
+def r6_fresh_pattern_tree(ctx, sym):
+    ctx.rule('R6', "CaitNode.find_matches executed abstractly twice with the same pattern text (the second time on a node "
+                   "taken from a match of the first, inheriting that match): each call builds a pattern tree of its "
+                   "own. Mappings are keyed by the pattern's node objects and the inherited map is merged over the new "
+                   "root pairing, so a pattern tree shared between the two matches would let the earlier root "
+                   "pairing replace the new one")
+    from .. import symexec
+    nmod = ctx.repo.module('pedal.cait.cait_node')
+    fn = nmod.func('CaitNode.find_matches')
+    ctx.analysed_function(nmod, fn)
+    built = []
+
+    def new_matcher(pattern, *a, **k):
+        root = Obj('pattern-root', children=[Obj('pattern-child')])
+        m = Obj('matcher', root_node=root, pattern=pattern)
+        symexec.method(m, 'find_matches', lambda node, **kw: [Obj('AstMap', root=root, searched=node, **kw)])
+        built.append(m)
+        return m
+    store = {}
+    report = Obj('report', __open__=True)
+    symexec.method(report, '__getitem__', lambda k: store.setdefault(k, {}))
+    symexec.method(report, '__setitem__', lambda k, v: store.__setitem__(k, v))
+    symexec.method(report, '__contains__', lambda k: k in store)
+    outer = symexec.self_obj(nmod, 'CaitNode', report=report, map=None, children=[], ast_name='If')
+    inner = symexec.self_obj(nmod, 'CaitNode', report=report, map=Obj('AstMap-of-first-match'), children=[],
+                             ast_name='If')
+    fd = symexec.new_fd(sym, nmod, calls={
+        'stm.StretchyTreeMatcher': new_matcher, 'StretchyTreeMatcher': new_matcher,
+        'isinstance': lambda o, t: isinstance(o, t) if isinstance(t, (type, tuple)) else (
+            isinstance(o, Obj) and o._name == 'CaitNode')})
+    results = []
+    for node in (outer, inner):
+        got, raised = symexec.run(fd, fn, ['if __cond__:\n    __inner__'], bound_self=node,
+                                  what='CaitNode.find_matches')
+        results.append((got, raised))
+    roots = [r[0][0].attrs.get('root') for r in results if r[1] is None and isinstance(r[0], list) and r[0]]
+    ok = len(roots) == 2 and roots[0] is not roots[1] and len(built) == 2
+    ctx.check(ok, 'R6', 'CaitNode.find_matches:fresh-pattern-tree', nmod, fn,
+              "two calls with the same pattern text built %d pattern tree(s)%s" % (
+                  len(built), ''.join(' (raises %s)' % r[1].kind for r in results if r[1] is not None)),
+              "descending nested `if a: if b: if c:` with the pattern `if __cond__:\\n    __inner__` level by level: at "
+              "level 2 the match root is the level-1 statement")
+
+
 def run(ctx):
     sym = Symbols(ctx.repo)
     mod = ctx.repo.module(MATCH)
@@ -581,6 +625,7 @@ def run(ctx):
     r3_ordered_children(ctx, sym, mod)
     r4_single_binding(ctx, sym)
     r5_placeholders(ctx, sym, mod)
+    r6_fresh_pattern_tree(ctx, sym)
     ctx.assume("that the composition of these guards over the recursion yields an embedding for every program/pattern "
                "pair is an inductive argument about the algorithm and is not decided; __expr__ rebinding "
                "(add_exp_to_sym_table overwrites without conflict, by its own docstring) is not decided")
